@@ -466,6 +466,8 @@ def _collect_units():
         for u in getattr(m, "UNITS", []):
             if not getattr(u, "module", None) or not getattr(u, "qualname", None):
                 continue
+            if getattr(u, "prop", mod) != mod:
+                continue        # a callee unit re-verified with that property: wrapped once, under its owner
             cs = list(u.cases())
             sel = _select_cases(mod, u, cs)
             units.append(FrameOf(u, mod, sel))
